@@ -25,6 +25,7 @@ import (
 	"encoding/json"
 	"fmt"
 	"io"
+	"os"
 	"sort"
 	"strconv"
 	"strings"
@@ -448,6 +449,7 @@ type c15env struct {
 	refs obiseq.BioSequenceSlice
 	cnt  []*obikmer.Table4mer
 	keys []int
+	dry  bool // VERIF_C15_DRY=1: count the cases of the space without running them (sizing only)
 }
 
 func (e *c15env) mkcase(part string, p *c15pool, idxs []int, tree int, taxa []int, seqidx int) c15case {
@@ -483,6 +485,10 @@ func (e *c15env) load(p *c15pool, idxs []int) {
 // evalFind runs one search and compares it with the comparison of the query with every reference.
 func (e *c15env) evalFind(impl int, p *c15pool, idxs []int) {
 	r := e.r
+	if e.dry {
+		r.Eval(1)
+		return
+	}
 	e.load(p, idxs)
 	got := c15callFind(impl, p.bs[0], e.refs, e.cnt)
 	r.Eval(1)
@@ -624,6 +630,10 @@ func (e *c15env) countSuspect(p *c15pool, idxs []int) {
 // (and the step function the index represents) with naive LCAs.
 func (e *c15env) evalIndex(p *c15pool, idxs []int, ti int, taxa []int, s int) {
 	r := e.r
+	if e.dry {
+		r.Eval(1)
+		return
+	}
 	t := e.trees[ti]
 	e.load(p, idxs)
 	set := make(obitax.TaxonSet, len(idxs))
@@ -728,6 +738,10 @@ func (e *c15env) evalIndex(p *c15pool, idxs []int, ti int, taxa []int, s int) {
 // ancestor-or-self of the taxon of every reference at the minimal distance.
 func (e *c15env) evalIdentify(p *c15pool, idxs []int, ti int, taxa []int) {
 	r := e.r
+	if e.dry {
+		r.Eval(1)
+		return
+	}
 	t := e.trees[ti]
 	e.load(p, idxs)
 	set := make(obitax.TaxonSet, len(idxs))
@@ -816,7 +830,10 @@ func TestVerifC15(t *testing.T) {
 	log.SetOutput(io.Discard)
 	r := verifkit.New("C15")
 	defer r.Write()
-	e := &c15env{r: r, trees: c15trees()}
+	e := &c15env{r: r, trees: c15trees(), dry: os.Getenv("VERIF_C15_DRY") == "1"}
+	if e.dry {
+		r.Cap("dry run: cases counted, not executed")
+	}
 
 	if rc := r.ReplayCase(); rc != nil {
 		var c c15case
